@@ -436,8 +436,8 @@ Proof.
   destruct ((z <? 100)%Z || (999 <? z)%Z); [congruence|discriminate].
 Qed.
 
-Lemma sse_site_exc long k : sse_site long = Exc k -> k = HTTPExc.
-Proof. destruct long; simpl; congruence. Qed.
+Lemma sse_site_exc dead body k : sse_site dead body = Exc k -> k = HTTPExc.
+Proof. unfold sse_site. destruct (negb dead && sse_too_long body); congruence. Qed.
 
 Definition qweight (s : qst) : nat := match s with QStart _ => 1 | _ => 0 end.
 
@@ -487,12 +487,12 @@ Proof.
       { intros chk'. apply IH; cbn [qweight]; lia. }
       destruct c; try apply Hrec.
       destruct c'; try apply Hrec.
-      destruct (if pi_sse pi then sse_site sl else Ok tt) as [u|k] eqn:E2.
+      match goal with |- context [if pi_sse pi then sse_site ?d ?bb else Ok tt] => destruct (if pi_sse pi then sse_site d bb else Ok tt) as [u|k] eqn:E2 end.
       * destruct (closed && is_nil rest); [split; [discriminate|intros; discriminate]|apply Hrec].
       * split; [discriminate|]. intros k' pi' bd b' H. injection H as <- _ _ _.
         destruct (pi_sse pi); [eapply sse_site_exc; eauto|discriminate].
     + split; [discriminate|intros; discriminate].
-  - destruct (if pi_sse pi then sse_site sl else Ok tt) as [u|k] eqn:E2.
+  - match goal with |- context [if pi_sse pi then sse_site ?d ?bb else Ok tt] => destruct (if pi_sse pi then sse_site d bb else Ok tt) as [u|k] eqn:E2 end.
     + destruct closed; split; try discriminate; intros; discriminate.
     + split; [discriminate|]. intros k' pi' bd b' H. injection H as <- _ _ _.
       destruct (pi_sse pi); [eapply sse_site_exc; eauto|discriminate].
@@ -511,7 +511,8 @@ Proof.
   destruct (partition1 63 (c :: loc')) as [[p sep] q].
   set (l := if sep then _ else _).
   destruct (catch_value_as_http _) as [s|k'] eqn:E.
-  - destruct (starts_with [47; 47] (u_path s)); [congruence|].
+  - destruct (urlsplit o (u_path s)) as [s2|k2]; [|congruence].
+    destruct (negb (is_nil (u_scheme s2)) || negb (is_nil (u_netloc s2))); [congruence|].
     destruct (url_hostname _); [discriminate|].
     destruct (norm_host_port _) as [h|k''] eqn:E2.
     + destruct (resolves n h); [discriminate|congruence].
@@ -524,8 +525,8 @@ Proof.
     + apply urlsplit_exc in E1. subst. congruence.
 Qed.
 
-Lemma client_ended_total cf o n k queued errored pi body buf cut closed e :
-  client_ended cf o n k queued errored pi body buf cut closed <> Exc e.
+Lemma client_ended_total cf o n k queued errored pi body buf cut closed dead e :
+  client_ended cf o n k queued errored pi body buf cut closed dead <> Exc e.
 Proof.
   unfold client_ended. rewrite dictify_site_ok.
   destruct (pi_sse pi); [discriminate|].
@@ -556,11 +557,11 @@ Proof.
 Qed.
 
 (* a failed parse, or a refused redirect, is reported through the error flag of the delivered response *)
-Lemma client_ended_errored cf o n k queued errored pi body buf cut closed :
+Lemma client_ended_errored cf o n k queued errored pi body buf cut closed dead :
   pi_sse pi = false ->
   (errored = true /\ cf_redirectable cf && pi_redirect pi = false) \/
   (cf_redirectable cf && pi_redirect pi = true /\ redirect_site o n (pi_location pi) = Exc HTTPExc) ->
-  exists k' r, client_ended cf o n k queued errored pi body buf cut closed = Ok k'
+  exists k' r, client_ended cf o n k queued errored pi body buf cut closed dead = Ok k'
                /\ k_responses k' = k_responses k ++ [r] /\ rp_errored r = true
                /\ rp_status r = pi_status pi /\ k_waited k' = false.
 Proof.
